@@ -36,6 +36,8 @@ type G struct {
 	inFn   int
 	inGen  bool
 	fuel   int
+	// NoIO makes the generated functions side-effect free (no write).
+	NoIO bool
 }
 
 func (g *G) fresh(prefix string) string {
@@ -329,7 +331,7 @@ func (g *G) stmt(d int, ret ty) string {
 		return "yield " + g.expr(tInt, d)
 	case c == 11 && d > 0:
 		return g.fundef(d-1, false)
-	case c == 12:
+	case c == 12 && !g.NoIO:
 		return "write(toa(" + g.expr(g.anyT(), d) + ") + \"\\n\")"
 	default:
 		return g.expr(g.anyT(), d)
@@ -619,4 +621,16 @@ func (g *G) GlobalOf(typ string) string {
 		}
 	}
 	return ""
+}
+
+// PureFunction defines a side-effect-free function in the current environment
+// and returns its definition and a call of it with generated arguments.
+func (g *G) PureFunction(d int) (def, call string) {
+	g.fuel = 60
+	g.NoIO = true
+	def = g.fundef(d, false)
+	scope := g.scopes[len(g.scopes)-1]
+	f := scope[len(scope)-1]
+	g.fuel = 20
+	return def, g.call(f, 1)
 }
